@@ -35,7 +35,7 @@ def get_supercell_copies(latvec, S):
     unit_box = np.stack([x.ravel() for x in np.meshgrid(*[u] * 3, indexing="ij")]).T
     unit_box_ = np.dot(unit_box, S)
     xyz_range = np.stack([f(unit_box_, axis=0) for f in (np.amin, np.amax)]).T
-    mesh = np.meshgrid(*[np.arange(*r) for r in xyz_range], indexing="ij")
+    mesh = np.meshgrid(*[np.arange(r[0], r[1] + 1) for r in xyz_range], indexing="ij")
     possible_pts = np.dot(np.stack([x.ravel() for x in mesh]).T, Sinv.T)
     in_unit_box = (possible_pts >= 0) * (possible_pts < 1 - 1e-12)
     select = np.where(np.all(in_unit_box, axis=1))[0]
